@@ -295,7 +295,7 @@ type releaser struct {
 
 func (r *releaser) ReleaseResources(d *rt.UserData) { *r.log = append(*r.log, "rel:"+r.name) }
 
-func runLua(src []byte, gcwait bool, doClose bool, reuse bool, mockgc bool) (status string, log []string, errmsg string) {
+func runLua(src []byte, gcwait bool, doClose bool, reuse bool, mockgc bool, rootcpu uint64) (status string, log []string, errmsg string) {
 	var stdout bytes.Buffer
 	// mockgc: the Go collector is replaced by a deterministic stand-in.  runtime.SetFinalizer calls of the finaliser
 	// pools are recorded (object -> the pool's goFinalizer method value) instead of being made, and the Lua global
@@ -347,6 +347,31 @@ func runLua(src []byte, gcwait bool, doClose bool, reuse bool, mockgc bool) (sta
 		}
 		return c.PushingNext1(t.Runtime, rt.IntValue(int64(n))), nil
 	}, 0, true)
+	// mkpair(name, mt): two userdata wrapping the SAME Go value (a pointer: comparable); mkraw(mt): a userdata wrapping a
+	// non-comparable Go value (a slice) — what an embedder may legitimately pass to NewUserDataValue
+	reg("mkpair", func(t *rt.Thread, c *rt.GoCont) (rt.Cont, error) {
+		name, _ := c.Arg(0).ToString()
+		meta, _ := c.Arg(1).TryTable()
+		shared := &releaser{name: name, log: &log}
+		return c.PushingNext(t.Runtime, t.NewUserDataValue(shared, meta), t.NewUserDataValue(shared, meta)), nil
+	}, 2, false)
+	reg("mkraw", func(t *rt.Thread, c *rt.GoCont) (rt.Cont, error) {
+		meta, _ := c.Arg(0).TryTable()
+		return c.PushingNext1(t.Runtime, t.NewUserDataValue([]int{1, 2, 3}, meta)), nil
+	}, 1, false)
+	// gcctx(policy, f): Thread.CallContext with only a GC policy ("isolate" / "share"), no limits; returns the context status
+	reg("gcctx", func(t *rt.Thread, c *rt.GoCont) (rt.Cont, error) {
+		pol, _ := c.Arg(0).ToString()
+		def := rt.RuntimeContextDef{GCPolicy: rt.ShareGCPolicy}
+		if pol == "isolate" {
+			def.GCPolicy = rt.IsolateGCPolicy
+		}
+		f := c.Arg(1)
+		ctx, _ := t.CallContext(def, func() error {
+			return rt.Call(t, f, nil, rt.NewTerminationWith(c, 0, false))
+		})
+		return c.PushingNext1(t.Runtime, rt.StringValue(ctx.Status().String())), nil
+	}, 2, false)
 	reg("mkud", func(t *rt.Thread, c *rt.GoCont) (rt.Cont, error) {
 		name, _ := c.Arg(0).ToString()
 		var meta *rt.Table
@@ -379,7 +404,25 @@ func runLua(src []byte, gcwait bool, doClose bool, reuse bool, mockgc bool) (sta
 		return "compile_error", log, err.Error()
 	}
 	term := rt.NewTerminationWith(nil, 0, true)
-	cerr := rt.Call(t, rt.FunctionValue(clos), nil, term)
+	var cerr error
+	if rootcpu > 0 {
+		// what cmd.go does for -cpulimit: a limited context pushed on the runtime itself, the chunk run in it, then Close
+		r.PushContext(rt.RuntimeContextDef{HardLimits: rt.RuntimeResources{Cpu: rootcpu}})
+		func() {
+			defer func() {
+				if x := recover(); x != nil {
+					if _, ok := x.(rt.ContextTerminationError); !ok {
+						panic(x)
+					}
+					log = append(log, "terminated")
+				}
+			}()
+			cerr = rt.Call(t, rt.FunctionValue(clos), nil, term)
+		}()
+		log = append(log, "root:"+r.Status().String())
+	} else {
+		cerr = rt.Call(t, rt.FunctionValue(clos), nil, term)
+	}
 	status = "ok"
 	if cerr != nil {
 		status = "error"
@@ -417,6 +460,7 @@ func luaEngine(in *bufio.Scanner, out *bufio.Writer) {
 			continue
 		}
 		gcwait, doClose, reuse, mockgc := false, true, false, false
+		var rootcpu uint64
 		for _, kv := range f[2:] {
 			switch kv {
 			case "gcwait=1":
@@ -427,9 +471,13 @@ func luaEngine(in *bufio.Scanner, out *bufio.Writer) {
 				reuse = true
 			case "mockgc=1":
 				mockgc = true
+			default:
+				if strings.HasPrefix(kv, "rootcpu=") {
+					rootcpu, _ = strconv.ParseUint(kv[8:], 10, 64)
+				}
 			}
 		}
-		status, log, errmsg := runLua(src, gcwait, doClose, reuse, mockgc)
+		status, log, errmsg := runLua(src, gcwait, doClose, reuse, mockgc, rootcpu)
 		ls := "-"
 		if len(log) > 0 {
 			ls = strings.Join(log, ";")
